@@ -80,6 +80,16 @@ func (c *Check) completeFn() *Func {
 				}
 			}
 		}
+		// the same helper written to update the context through a pointer
+		for i := range f.Params {
+			if os := c.P.outSummary(f, i); os != nil {
+				if w := writtenFields(os); len(w) == 1 {
+					if b, ok := w["BatchState"]; ok && b.IsAt("#types.BATCHCOMPLETED") {
+						return f
+					}
+				}
+			}
+		}
 	}
 	return nil
 }
